@@ -59,6 +59,15 @@ def replay_file(path):
         print('replay file carries no concrete input (no-failing-input-found); failed obligation: %s "%s" at %s'
               % (rec.get('obligation'), rec.get('description'), rec.get('where')))
         return 1
-    res = finders.native_replay(rec['oracle_kind'], rec['input_hex'], rec.get('oracle_args', []))
+    from . import props
+    import tempfile, shutil
+    work = tempfile.mkdtemp(prefix='replay', dir=os.path.join(VERIF, 'build') if os.path.isdir(os.path.join(VERIF, 'build')) else None)
+    try:
+        props.prepare(work)
+        exe = finders.build_oracle(work)
+        res = finders.native_replay(exe, rec['oracle_kind'], rec['input_hex'], rec.get('oracle_args', []))
+    finally:
+        shutil.rmtree(work, ignore_errors=True)
     print(json.dumps(res))
+    print('input %r: real code and specification %s' % (rec.get('input_text', ''), 'DISAGREE (violation reproduced)' if res.get('disagree') else 'agree (not reproduced on this tree)'))
     return 1 if res.get('disagree') else 0
